@@ -75,11 +75,18 @@ func runCase(t *rapid.T, c hx.Creds) error {
 	if !bytes.Equal(sess.SIK, bs.SIK) {
 		return fmt.Errorf("SIK: library %x, BMC %x", sess.SIK, bs.SIK)
 	}
-	if k := sess.K(1); !bytes.Equal(k, bs.K1) {
-		return fmt.Errorf("K1: library %x, BMC %x", k, bs.K1)
+	// the keys are obtained the way a caller keeps them: K1, then K2, then the
+	// session is printed; each value must (still) be the BMC's
+	k1, k2 := sess.K(1), sess.K(2)
+	_ = sess.String()
+	if !bytes.Equal(k1, bs.K1) {
+		return fmt.Errorf("K1: library %x, BMC %x", k1, bs.K1)
 	}
-	if k := sess.K(2); !bytes.Equal(k, bs.K2) {
-		return fmt.Errorf("K2: library %x, BMC %x", k, bs.K2)
+	if !bytes.Equal(k2, bs.K2) {
+		return fmt.Errorf("K2: library %x, BMC %x", k2, bs.K2)
+	}
+	if k := sess.K(1); !bytes.Equal(k, bs.K1) {
+		return fmt.Errorf("K1 (asked for again): library %x, BMC %x", k, bs.K1)
 	}
 	if sess.LocalID != bs.ConsoleID || sess.RemoteID != bs.ID {
 		return fmt.Errorf("session IDs: library local %#x remote %#x, BMC console %#x own %#x", sess.LocalID, sess.RemoteID, bs.ConsoleID, bs.ID)
